@@ -135,6 +135,13 @@ fn sp(n: usize, out: &mut String) {
     }
 }
 
+/// One indentation unit of the record, as text.
+pub fn indent_unit(o: &Opts) -> String {
+    let mut s = String::new();
+    indent(o.indent, 1, &mut s);
+    s
+}
+
 fn indent(i: Indent, depth: usize, out: &mut String) {
     let (c, n) = match i {
         Indent::Spaces(n) => (' ', n),
